@@ -91,7 +91,7 @@ def matrix_pre(res, prop, tier, seed, t_end, specs, observers=(), watcher=False)
     for label, cases, sample in specs:
         if res.findings:
             return
-        Mx.run_cases(res, prop, cases(), tier, seed, t_end, sample, observers, PROPS[prop]['scope'] if label not in ('ttl-rules', 'missing-keys', 'floats', 'sets', 'lists', 'zsets', 'set-options', 'sort', 'all-types', 'dump-restore', 'server-commands') or prop in ('C01', 'C02', 'C03') and label in ('sets', 'lists', 'zsets', 'set-options', 'sort') else None,
+        Mx.run_cases(res, prop, cases(), tier, seed, t_end, sample, observers, PROPS[prop]['scope'] if label not in ('ttl-rules', 'missing-keys', 'floats', 'sets', 'lists', 'zsets', 'set-options', 'sort', 'all-types', 'dump-restore', 'server-commands', 'subscriber-mode') or prop in ('C01', 'C02', 'C03') and label in ('sets', 'lists', 'zsets', 'set-options', 'sort') else None,
                      label=label, watcher=watcher)
 
 
@@ -109,7 +109,7 @@ def generic(prop, plan_q, plan_t, n_q, n_t, observers=(), versions=(6, 7), pre=N
 TRACK = (Mn.mon_track_queue,)
 OBSERVERS = {
     'C03': (Mn.mon_zset_inv,), 'C04': (Mn.mon_replies,), 'C06': TRACK + (Mn.mon_watch,), 'C08': (Mn.mon_error_nochange,),
-    'C09': (Mn.mon_views, Mn.mon_no_side_effect_keys), 'C10': TRACK + (Mn.mon_pubsub,), 'C13': (Mn.mon_db_frame,),
+    'C09': (Mn.mon_views, Mn.mon_no_side_effect_keys), 'C10': TRACK + (Mn.mon_pubsub, Mn.mon_subscriber_gate), 'C13': (Mn.mon_db_frame,),
 }
 
 
@@ -970,8 +970,9 @@ RUNNERS = {
                                                                     [('missing-keys', lambda: Mx.missing_cases(random.Random(seed), 2 if tier == 'quick' else 12), 330),
                                                                      ('sets', Mx.sets_cases, 80), ('lists', Mx.lists_cases, 250), ('zsets', Mx.zsets_cases, 150),
                                                                      ('ttl-rules', Mx.ttl_cases, 120)], OBSERVERS['C09'])),
-    'C10': generic('C10', Cp.plan_multi(['pubsub', 'pubsub', 'tx', 'str', 'server'], 70, nconn=(2, 3, 4)),
-                   Cp.plan_multi(['pubsub', 'pubsub', 'tx', 'str', 'server'], 90, nconn=(2, 3, 4)), 40, 800, OBSERVERS['C10']),
+    'C10': generic('C10', pre=lambda res, tier, seed, t_end, bad: matrix_pre(res, 'C10', tier, seed, t_end, [('subscriber-mode', Mx.subscriber_mode_cases, 500)], OBSERVERS['C10']),
+                   plan_q=Cp.plan_multi(['pubsub', 'pubsub', 'tx', 'str', 'server'], 70, nconn=(2, 3, 4)),
+                   plan_t=Cp.plan_multi(['pubsub', 'pubsub', 'tx', 'str', 'server'], 90, nconn=(2, 3, 4)), n_q=40, n_t=800, observers=OBSERVERS['C10']),
     'C13': run_C13,
     'C15': run_C15,
     'C16': run_C16,
